@@ -138,7 +138,9 @@ fn check_transport_contract(cx: &Cx) -> CaseResult {
         let n2 = name.clone();
         let r = ops::run_op(move |_m| async move {
             let t = Transport::local(&d2);
-            let payloads: Vec<Vec<u8>> = (0..4u8).map(|i| vec![b'a' + i; 64 + 977 * i as usize]).collect();
+            // (every third round with payloads of more than a MiB and of several MiB)
+            let base = if round % 3 == 2 { (1usize << 20) + ((round as usize) << 19) } else { 64 };
+            let payloads: Vec<Vec<u8>> = (0..4u8).map(|i| vec![b'a' + i; base + 977 * i as usize]).collect();
             let (a, b, c, d) = tokio::join!(
                 t.write(&n2, &payloads[0], WriteMode::CreateNew),
                 t.write(&n2, &payloads[1], WriteMode::CreateNew),
@@ -151,7 +153,7 @@ fn check_transport_contract(cx: &Cx) -> CaseResult {
         let winners: Vec<usize> = oks.iter().enumerate().filter(|(_, ok)| **ok).map(|(i, _)| i).collect();
         let now = std::fs::read(dir.join(&name)).unwrap_or_default();
         ensure!(
-            winners.len() == 1 && now == vec![b'a' + winners[0] as u8; 64 + 977 * winners[0]],
+            winners.len() == 1 && now == vec![b'a' + winners[0] as u8; (if round % 3 == 2 { (1usize << 20) + ((round as usize) << 19) } else { 64 }) + 977 * winners[0]],
             "C07/create-new-overlapping-writers",
             "four CreateNew writes of one new path issued together: {} reported success ({oks:?}); the file holds {} bytes starting {:?}",
             winners.len(),
